@@ -314,8 +314,27 @@ def rule_d4(ctx) -> None:
         ctx.finding("C08-D4", "SyntheticRuleImputer.single_impute:append", si.loc(), "the imputer no longer appends '.' + get_and_validate_smiles(solution) to the side string")
 
 
+def rule_d5(ctx) -> None:
+    from . import c07
+
+    ctx.rule("C08-D5", "the imbalance vector keeps its signed entries on the way into the solver (no Counter arithmetic)", 3)
+    c07.counter_arithmetic(ctx, "C08-D5", [MATCHER + ".__init__", MATCHER + ".apply_rule", MATCHER + ".dfs", "synrbl.rule_based.RuleBasedMethod.run", IMPUTER + ".single_impute"])
+    # normalisation in __init__: keeps every non-zero entry and Q
+    init = ctx.prog.func(MATCHER + ".__init__")
+    norm = [n for n in own_nodes(init.node) if isinstance(n, ast.Assign) and unparse(n.targets[0]) == "self.data_dict" and isinstance(n.value, ast.DictComp)]
+    ok = False
+    for n in norm:
+        g = n.value.generators[0]
+        conds = [unparse(c) for c in g.ifs]
+        ok = conds in (["v != 0 or k == 'Q'"], ["k == 'Q' or v != 0"], [])
+    ctx.instance("C08-D5", "matcher normalisation drops zero counts only", init.loc(), ok=ok or not norm, nontrivial=True)
+    if norm and not ok:
+        ctx.finding("C08-D5", "SyntheticRuleMatcher.__init__:normalisation", init.loc(norm[0]), "the imbalance is normalised with %s; entries other than zeros can be dropped" % [unparse(c) for c in norm[0].value.generators[0].ifs])
+
+
 def check(ctx) -> None:
     rule_d1(ctx)
     rule_d2(ctx)
     rule_d3(ctx)
     rule_d4(ctx)
+    rule_d5(ctx)
